@@ -107,15 +107,18 @@ package document
 //@ ensures result.Properties == nil || fresh(result.Properties)
 
 //@ func (*TemplateEngine).cloneParagraph
-//@ props C18, C17
+//@ props C18, C17, C09
 //@ requires source != nil
 //@ modifies nothing
 //@ ensures deepcopy(result, source)
 //@ ensures fresh(result) && !isElem(result) && freshArr(result.Runs)
+// C09: the run array exists (made even for a paragraph without runs) and is allocated by this call
+//@ ensures arr(result.Runs) != 0 && arr(result.Runs) >= old(allocBound())
 //@ loop 1
 //@   invariant 0 <= #i && #i <= len(source.Runs) && unchangedHeap()
 //@   invariant newPara != nil && fresh(newPara) && deepcopy(newPara.Properties, source.Properties) && len(newPara.Runs) == len(source.Runs) && (len(newPara.Runs) == 0 || arr(newPara.Runs) >= old(allocBound()))
 //@   invariant forall k int :: 0 <= k && k < #i ==> deepcopy(newPara.Runs[k], source.Runs[k])
+//@   invariant arr(newPara.Runs) != 0 && arr(newPara.Runs) >= old(allocBound())
 //@   decreases len(source.Runs) - #i
 
 // Region closure (property C17). closedAbove(b): every live cell of a row / cell / table array whose id is at or
@@ -131,18 +134,27 @@ package document
 // Tables: cloneTable / cloneTableRow / cloneTableCell are mutually recursive (nested tables). Each is verified
 // against the contracts of the others; termination of the mutual recursion (it follows the nesting depth of
 // the finite source table) is NOT proved.
+// C09 (copies satisfy the ownership invariants whatever the source looks like): the properties object, the paragraph
+// array and the run array of every paragraph of the copy are allocated by this call, and no two paragraphs of the copy
+// share a run array - even when the source's do.
 //@ func (*TemplateEngine).cloneTableCell
-//@ props C18, C17
+//@ props C18, C17, C09
 //@ requires source != nil
 //@ modifies nothing
 //@ ensures deepcopy(result, source)
 //@ ensures closedAbove(old(allocBound())) && above(result.Paragraphs, old(allocBound())) && above(result.Tables, old(allocBound())) && tagged(result.Tables, "Table")
+//@ ensures above(result.Properties, old(allocBound())) && live(result.Properties) && arr(result.Paragraphs) != 0 && arr(result.Paragraphs) >= old(allocBound()) && arr(result.Paragraphs) < allocBound()
+//@ ensures forall k int :: {result.Paragraphs[k]} 0 <= k && k < len(result.Paragraphs) ==> arr(result.Paragraphs[k].Runs) != 0 && arr(result.Paragraphs[k].Runs) >= old(allocBound()) && arr(result.Paragraphs[k].Runs) < allocBound()
+//@ ensures forall k1 int, k2 int :: {result.Paragraphs[k1], result.Paragraphs[k2]} 0 <= k1 && k1 < k2 && k2 < len(result.Paragraphs) ==> arr(result.Paragraphs[k1].Runs) != arr(result.Paragraphs[k2].Runs)
 //@ loop 1
 //@   invariant 0 <= #i && #i <= len(source.Paragraphs) && unchangedHeap()
 //@   invariant deepcopy(newCell.Properties, source.Properties) && len(newCell.Paragraphs) == len(source.Paragraphs) && (len(newCell.Paragraphs) == 0 || arr(newCell.Paragraphs) >= old(allocBound()))
 //@   invariant len(newCell.Tables) == len(source.Tables) && (len(newCell.Tables) == 0 || arr(newCell.Tables) >= old(allocBound()))
 //@   invariant forall k int :: 0 <= k && k < #i ==> deepcopy(newCell.Paragraphs[k], source.Paragraphs[k])
 //@   invariant closedAbove(old(allocBound())) && above(newCell.Paragraphs, old(allocBound())) && above(newCell.Tables, old(allocBound())) && tagged(newCell.Tables, "Table")
+//@   invariant above(newCell.Properties, old(allocBound())) && live(newCell.Properties) && arr(newCell.Paragraphs) != 0 && arr(newCell.Paragraphs) >= old(allocBound()) && arr(newCell.Paragraphs) < allocBound()
+//@   invariant forall k int :: {newCell.Paragraphs[k]} 0 <= k && k < #i ==> arr(newCell.Paragraphs[k].Runs) != 0 && arr(newCell.Paragraphs[k].Runs) >= old(allocBound()) && arr(newCell.Paragraphs[k].Runs) < allocBound()
+//@   invariant forall k1 int, k2 int :: {newCell.Paragraphs[k1], newCell.Paragraphs[k2]} 0 <= k1 && k1 < k2 && k2 < #i ==> arr(newCell.Paragraphs[k1].Runs) != arr(newCell.Paragraphs[k2].Runs)
 //@   decreases len(source.Paragraphs) - #i
 //@ loop 2
 //@   invariant 0 <= #i && #i <= len(source.Tables) && unchangedHeap()
@@ -154,32 +166,50 @@ package document
 //@   invariant #i >= 1 ==> deepcopyAbove(newCell.Tables[#i - 1], source.Tables[#i - 1], loopBound())
 //@   decreases len(source.Tables) - #i
 
+// C09: the copy of a row is made of parts allocated by this call and no two of its cells share a properties object, a
+// paragraph array or a run array (zz_contracts_verif_rdtable.go) - even when the source's do.
 //@ func (*TemplateEngine).cloneTableRow
-//@ props C18, C17
+//@ props C18, C17, C09
 //@ requires source != nil
 //@ modifies nothing
 //@ ensures deepcopy(result, source)
 //@ ensures fresh(result) && !isElem(result)
 //@ ensures closedAbove(old(allocBound())) && above(result.Cells, old(allocBound())) && tagged(result.Cells, "TableCell")
+//@ ensures rowPartsAbove(result, old(allocBound())) && rowPartsLive(result) && rowRunsApart(result) && rowCellsApart(result)
 //@ loop 1
 //@   invariant 0 <= #i && #i <= len(source.Cells) && unchangedHeap()
 //@   invariant newRow != nil && fresh(newRow) && deepcopy(newRow.Properties, source.Properties) && len(newRow.Cells) == len(source.Cells) && (len(newRow.Cells) == 0 || arr(newRow.Cells) >= old(allocBound()))
 //@   invariant forall k int :: 0 <= k && k < #i - 1 ==> deepcopyAbove(newRow.Cells[k], source.Cells[k], loopBound())
 //@   invariant closedAbove(old(allocBound())) && above(newRow.Cells, old(allocBound())) && tagged(newRow.Cells, "TableCell")
 //@   invariant #i >= 1 ==> deepcopyAbove(newRow.Cells[#i - 1], source.Cells[#i - 1], loopBound())
+//@   invariant above(newRow.Properties, old(allocBound())) && live(newRow.Properties) && arr(newRow.Cells) != 0 && arr(newRow.Cells) >= old(allocBound()) && arr(newRow.Cells) < allocBound()
+//@   invariant forall c int :: {newRow.Cells[c]} 0 <= c && c < #i ==> cellPartsAbove(&newRow.Cells[c], old(allocBound())) && cellPartsLive(&newRow.Cells[c]) && cellRunsApart(&newRow.Cells[c])
+//@   invariant forall c1 int, c2 int :: {newRow.Cells[c1], newRow.Cells[c2]} 0 <= c1 && c1 < c2 && c2 < #i ==> cellsApart(&newRow.Cells[c1], &newRow.Cells[c2])
 //@   decreases len(source.Cells) - #i
 
+// C09: the copy of a table satisfies the five ownership predicates the table editors require, whatever the source looks
+// like (a source whose rows share a cell array still yields a copy whose rows do not): copy-then-edit is covered by the
+// induction over the editors' contracts.
 //@ func (*TemplateEngine).cloneTable
-//@ props C18, C17
+//@ props C18, C17, C09
 //@ requires source != nil
 //@ modifies nothing
 //@ ensures deepcopy(result, source)
 //@ ensures fresh(result) && !isElem(result)
 //@ ensures closedAbove(old(allocBound())) && above(result.Rows, old(allocBound())) && tagged(result.Rows, "TableRow")
+//@ ensures rowsOwn(result)
+//@ ensures cellPropsOwn(result)
+//@ ensures rowPropsOwn(result)
+//@ ensures cellParasOwn(result)
+//@ ensures paraRunsOwn(result)
 //@ loop 1
 //@   invariant 0 <= #i && #i <= len(source.Rows) && unchangedHeap()
 //@   invariant newTable != nil && fresh(newTable) && deepcopy(newTable.Properties, source.Properties) && deepcopy(newTable.Grid, source.Grid) && len(newTable.Rows) == len(source.Rows) && (len(newTable.Rows) == 0 || arr(newTable.Rows) >= old(allocBound()))
 //@   invariant forall k int :: 0 <= k && k < #i - 1 ==> deepcopyAbove(newTable.Rows[k], source.Rows[k], loopBound())
 //@   invariant closedAbove(old(allocBound())) && above(newTable.Rows, old(allocBound())) && tagged(newTable.Rows, "TableRow")
 //@   invariant #i >= 1 ==> deepcopyAbove(newTable.Rows[#i - 1], source.Rows[#i - 1], loopBound())
+//@   invariant arr(newTable.Rows) != 0 && arr(newTable.Rows) >= old(allocBound()) && arr(newTable.Rows) < allocBound()
+//@   invariant forall r int :: {newTable.Rows[r]} 0 <= r && r < #i ==> rowPartsAbove(&newTable.Rows[r], old(allocBound())) && rowPartsLive(&newTable.Rows[r])
+//@   invariant forall r int :: {newTable.Rows[r]} 0 <= r && r < #i ==> rowRunsApart(&newTable.Rows[r]) && rowCellsApart(&newTable.Rows[r])
+//@   invariant forall r1 int, r2 int :: {newTable.Rows[r1], newTable.Rows[r2]} 0 <= r1 && r1 < r2 && r2 < #i ==> rowsApart(&newTable.Rows[r1], &newTable.Rows[r2])
 //@   decreases len(source.Rows) - #i
